@@ -191,6 +191,20 @@ func checkSetCanonical(ctx *Ctx, r *Report) {
 	}
 	// the element loop ranges over the whole of ts
 	rangeOK := false
+	set := paramName(fn, 0)
+	for _, e := range cs {
+		// (event form: index μ from 0 in steps of 1 while μ < len(ts); works also when ts is
+		// captured by a closure and lives in a cell)
+		for _, c := range conjuncts(e.Cond) {
+			if c.Op == "cmp" && c.S == "<" && c.Args[1].Key() == "len("+set+")" {
+				for _, mu := range findSub(c.Args[0], func(x *Term) bool { return x.Op == "a" && strings.HasPrefix(x.S, "μ") }) {
+					if rc, ok := recs[mu.S]; ok && rc.Init.Key() == K(-1).Key() && rc.Step.Key() == Add(K(1), mu).Key() && c.Args[0].Key() == Add(K(1), mu).Key() {
+						rangeOK = true
+					}
+				}
+			}
+		}
+	}
 	for _, b := range fn.Blocks {
 		for _, ins := range b.Instrs {
 			if phi, ok := ins.(*ssa.Phi); ok {
@@ -203,6 +217,34 @@ func checkSetCanonical(ctx *Ctx, r *Report) {
 	r.check("Y3", "TriangleISet.Canonical|canonicalises-every-element", fn.Pos(), okEach && rangeOK, "ts[i].Canonical() for i over the whole of ts")
 	ss := eventsOf(ev, "sort.Sort")
 	okSort := len(ss) == 1 && strings.Contains(valKey(ss[0].Args[0]), "ts")
+	sliceCmp := false
+	if len(ss) == 0 {
+		// sort.Slice(ts, less): the same set, and less is the index comparator (its closed form
+		// equals that of TriangleIByIndex.Less, which Y1 decides)
+		if sl := eventsOf(ev, "sort.Slice"); len(sl) == 1 && len(sl[0].Args) == 2 && strings.Contains(valKey(sl[0].Args[0]), set) {
+			ss = sl
+			okSort = true
+			if fv, ok := sl[0].Args[1].(*FuncV); ok && fv.Fn != nil && len(fv.Fn.Params) == 2 {
+				ev2 := newEval(ctx)
+				st2 := sl[0].State.clone()
+				got, _ := ev2.Call(fv.Fn, []Val{A("i"), A("j")}, fv.Free, &st2).(*Term)
+				if lf := ctx.ssaFunc("render", "(TriangleIByIndex).Less"); lf != nil && got != nil {
+					ev3 := newEval(ctx)
+					want, _ := ev3.evalRoot(lf)
+					if wt, ok := want.(*Term); ok {
+						a := paramName(lf, 0)
+						wt = rebuild(wt, func(x *Term) *Term {
+							if x.Op == "a" && strings.HasPrefix(x.S, a+"[") {
+								return A(set + strings.TrimPrefix(x.S, a))
+							}
+							return nil
+						})
+						sliceCmp = wt.Key() == got.Key()
+					}
+				}
+			}
+		}
+	}
 	// sort happens after the loop and the sorted slice is what is returned
 	retOK := strings.Contains(valKey(res), "ts")
 	r.check("Y3", "TriangleISet.Canonical|sorts-the-same-set-by-index", fn.Pos(), okSort && retOK, "sort.Sort(TriangleIByIndex(ts)) and ts returned; sort argument: "+func() string {
@@ -221,7 +263,7 @@ func checkSetCanonical(ctx *Ctx, r *Report) {
 			usesByIndex = true
 		}
 	})
-	r.check("Y3", "TriangleISet.Canonical|sorted-with-the-index-comparator", fn.Pos(), usesByIndex, "the set is sorted through TriangleIByIndex (whose Less is decided by Y1)")
+	r.check("Y3", "TriangleISet.Canonical|sorted-with-the-index-comparator", fn.Pos(), usesByIndex || sliceCmp, "the set is sorted through TriangleIByIndex (whose Less is decided by Y1)")
 }
 
 // ssaAdd1 finds the phi+1 value of a range induction phi, or the phi itself.
